@@ -31,7 +31,8 @@ def _call(f, *a):
 
 def sk_domain(env, thorough):
     g = rng(env, "sk")
-    ks = [1, 2, 3, R_ - 1, R_ - 2, 2**64, 2**254, 2**53 + 1] + [g.randrange(1, R_) for _ in range(3)]
+    ks = [1, 2, 3, R_ - 1, R_ - 2, 2**64, 2**254, 2**53 + 1, 2**64 - 1, 2**128 - 1, 2**200 - 3, 2**254 - 1,
+          2**53 - 1] + [g.randrange(1, R_) for _ in range(3)]
     if thorough:
         ks += [g.randrange(1, R_) for _ in range(29)] + [2**k for k in range(8, 250, 31)]
     return ks
@@ -40,6 +41,13 @@ def sk_domain(env, thorough):
 def msg_domain():
     return [b"", b"\x00", b"\x00" * 32, bytes(range(55)), bytes(range(56)), bytes(range(64)), bytes(range(65)),
             bytes(i & 0xFF for i in range(1024)), b"abc"]
+
+
+OWN_PK = -1  # message index meaning "the signer's own 48 public-key bytes"
+
+
+def _msg(mi, sk):
+    return MB.sk_to_pk(sk) if mi == OWN_PK else msg_domain()[mi]
 
 
 def case(kind, suite, sk, msg):
@@ -61,10 +69,12 @@ def task_outputs(a, env):
         for mi in a["mis"]:
             todo += [("sign", s, mi) for s in a["suites"]]
         if "pop" in a["suites"]:
-            todo.append(("pop", "pop", None))
+            # the key bytes as an ordinary message, before and after the possession proof
+            # (same bytes hashed under the signature tag and under the proof tag)
+            todo += [("sign", "pop", OWN_PK), ("pop", "pop", None), ("sign", "pop", OWN_PK), ("sign", "basic", OWN_PK)]
         todo += [("sign", s, a["mis"][0]) for s in reversed(a["suites"])]
         for kind, suite, mi in todo:
-            exp, got = case(kind, suite, sk, msgs[mi] if mi is not None else None)
+            exp, got = case(kind, suite, sk, _msg(mi, sk) if mi is not None else None)
             r.ev += 1
             r.dk.add((kind, suite, sk, mi))
             if exp != got:
@@ -76,8 +86,8 @@ def task_outputs(a, env):
 
 
 def replay(a):
-    msgs = msg_domain()
-    exp, got = case(a["kind"], a["suite"], int(a["sk"], 16), msgs[a["mi"]] if a["mi"] is not None else None)
+    sk = int(a["sk"], 16)
+    exp, got = case(a["kind"], a["suite"], sk, _msg(a["mi"], sk) if a["mi"] is not None else None)
     return None if exp == got else {"expected": exp, "observed": got}
 
 
